@@ -786,6 +786,32 @@ def r_dir(d):
             h = mk(); h.prepare(); h.getdirlist()
             if h.fromcache and os.stat(cachefile).st_mtime_ns != m1:
                 return {"confirmed": True, "scenario": "a cache hit rewrote the cache file (its age was refreshed)"}
+        if "prepare" in name or "standin" in d.get("kind", ""):
+            # C07: the order of a listing does not depend on the order in which the OS enumerates the directory
+            import itertools, random
+            if os.path.exists(cachefile):
+                os.unlink(cachefile)
+            cfg.set("handlers.dir.DirHandler", "cachetime", "0")
+            for f in ("README", "ReadMe", "readme", "Zebra", "apple"):
+                open(os.path.join(top, f), "w").write(f)
+            real_listdir = os.listdir
+            names = real_listdir(top)
+            orders = [sorted(names), sorted(names, reverse=True)] + [random.Random(k).sample(names, len(names)) for k in range(12)]
+            try:
+                for cls in (DirHandler, UMNDirHandler):
+                    seen = set()
+                    for o in orders:
+                        os.listdir = lambda p, o=o, real=real_listdir: (([os.fsencode(x) for x in o] if isinstance(p, bytes) else list(o))
+                                                                        if os.path.realpath(os.fsdecode(p)) == os.path.realpath(top) else real(p))
+                        h = mk(cls); h.prepare()
+                        seen.add(tuple(e.selector for e in h.getdirlist()))
+                    if len(seen) != 1:
+                        return {"confirmed": True, "scenario": "the same directory enumerated by the OS in different orders gives different listings", "handler": cls.__name__, "listings": [list(x) for x in list(seen)[:2]]}
+            finally:
+                os.listdir = real_listdir
+                for f in ("README", "ReadMe", "readme", "Zebra", "apple"):
+                    os.unlink(os.path.join(top, f))
+            cfg.set("handlers.dir.DirHandler", "cachetime", "180")
         if "prep_entries" in name or "prep_initfiles" in name:
             if os.path.exists(cachefile):
                 os.unlink(cachefile)
@@ -943,7 +969,7 @@ def r_gophermap(d):
         cfg = _config({})
         cfg.set("pygopherd", "root", top)
         firsts = ["0About", "1Sub dir", "hHome page", "iinfo with tab", "0", "9 spaced  name ", "IImage", "TTelnet 3270", "URL list"]
-        sels = [None, "", "rel.txt", "/abs/file.txt", "URL:http://example.org/", "sub/deeper.txt", " padded ", "URLs/list.txt", "URL"]
+        sels = [None, "", "rel.txt", "/abs/file.txt", "URL:http://example.org/", "sub/deeper.txt", " padded ", "URLs/list.txt", "URL", "/pub//archive", "proxy?u=http://example.org//x"]
         hosts = [None, "", "gopher.example.org"]
         ports = [None, "", "70", " 7070 "]
         links = []
@@ -1343,3 +1369,150 @@ def r_tal(d):
 
 REALISERS.append(("simpletal/", r_tal))
 REALISERS.append(("pygopherd/handlers/tal.py::", r_tal))
+
+
+# ------------------------------------------------------------------- search strings through every protocol (C06 stand-in)
+def r_search(d):
+    """The same search string, submitted through each protocol's own mechanism (tab field, searchrequest parameter,
+    URL query, request body), must reach the handler as the same string."""
+    import shutil, tempfile
+    import pygopherd.handlers.base as hb
+    import pygopherd.handlers.HandlerMultiplexer as hm
+    from pygopherd import testutil, logger
+    logger.log = lambda m: None
+    top = tempfile.mkdtemp(prefix="pyvc-search-", dir="/var/tmp")
+    try:
+        open(os.path.join(top, "target.txt"), "w").write("x\n")
+        cfg = _config({})
+        cfg.set("pygopherd", "root", top)
+        hb.rootpath = None; hm.rootpath = None; hm.handlers = None
+        for s in ["plain words", "c++ faq", "1+1=2", "a&b=c", "100% sure", "tag#frag", "question?mark", "café au lait", "semi;colon/slash", "back\\slash \"quoted\" 'single'"]:
+            raw = s.encode("utf-8")
+            pct_all = "".join("%%%02X" % b for b in raw)
+            q3986 = "".join(chr(b) if (chr(b).isalnum() or chr(b) in "-._~+=&;/?:@!$'()*,") and b < 128 else "%%%02X" % b for b in raw)
+            views = [("gopher", ("/target.txt\t%s\r\n" % s).encode("utf-8"), False),
+                     ("gopher+", ("/target.txt\t%s\t+\r\n" % s).encode("utf-8"), False),
+                     ("http", ("GET /target.txt?searchrequest=%s HTTP/1.0\r\n\r\n" % pct_all).encode(), False),
+                     ("wap", ("GET /wap/target.txt?searchrequest=%s HTTP/1.0\r\n\r\n" % pct_all).encode(), False),
+                     ("gemini", ("gemini://localhost/target.txt?%s\r\n" % q3986).encode(), True),
+                     ("spartan", b"localhost /target.txt %d\r\n" % len(raw) + raw, False)]
+            seen = {}
+            for name, req, tls in views:
+                proto = testutil.get_testing_protocol(req.decode("utf-8", "surrogateescape"), cfg, use_tls=tls)
+                try:
+                    proto.handle()
+                    seen[name] = proto.gethandler().searchrequest
+                except Exception as e:  # noqa
+                    seen[name] = "RAISED %r" % (e,)
+            if len(set(seen.values())) != 1 or seen["gopher"] != s:
+                return {"confirmed": True, "scenario": "search string %r submitted through each protocol's own mechanism" % s, "handler received": seen}
+        return {"confirmed": None, "note": "search strings agree in all protocols"}
+    finally:
+        shutil.rmtree(top, ignore_errors=True)
+        hb.rootpath = None; hm.rootpath = None; hm.handlers = None
+
+
+for _q in ("pygopherd/protocols/gemini.py::GeminiProtocol.handle", "pygopherd/protocols/spartan.py::SpartanProtocol.handle",
+           "pygopherd/protocols/rfc1436.py::GopherProtocol.handle", "pygopherd/protocols/gopherp.py::GopherPlusProtocol.handle"):
+    REALISERS.append((_q, (lambda d, _prev=find(_q): (_first_confirmed(r_search, _prev)(d) if d.get("kind") == "standin" else _prev(d)))))
+_prev_http = find("pygopherd/protocols/http.py::HTTPProtocol.handle")
+REALISERS.append(("pygopherd/protocols/http.py::HTTPProtocol.handle", lambda d: (_first_confirmed(r_search, _prev_http)(d) if d.get("kind") == "standin" else _prev_http(d))))
+
+
+# ------------------------------------------------------------------- sidecar files (C15 / C08 stand-in)
+def r_sidecars(d):
+    """Extended-attribute sidecars: files with blank lines, trailing blanks, several paragraphs; entries whose names
+    differ only by an extension; a directory abstract.  Every Gopher+ block must carry exactly the lines of
+    <name><ext> (right-stripped) and an entry without a sidecar of its own must have no block."""
+    import shutil, tempfile
+    import pygopherd.handlers.base as hb
+    import pygopherd.handlers.HandlerMultiplexer as hm
+    from pygopherd import gopherentry
+    top = tempfile.mkdtemp(prefix="pyvc-ea-", dir="/var/tmp")
+    try:
+        cfg = _config({})
+        cfg.set("pygopherd", "root", top)
+        hb.rootpath = None; hm.rootpath = None; hm.handlers = None
+        gopherentry.eaexts = None
+        texts = {"notes.txt.abstract": "First paragraph.\n\nSecond paragraph   \n  indented\n\n\nlast", "notes.txt.keywords": "k1\n\nk2\n",
+                 "report.abstract": "Abstract of the extensionless report\n", "sub/.abstract": "Directory abstract\n\nwith a blank line\n"}
+        os.makedirs(os.path.join(top, "sub"))
+        for n in ("notes.txt", "report", "report.txt", "plain.txt", "sub/x.txt"):
+            open(os.path.join(top, n), "w").write("data\n")
+        for n, t in texts.items():
+            open(os.path.join(top, n), "w").write(t)
+        exts = {".abstract": "ABSTRACT", ".keywords": "KEYWORDS", ".ask": "ASK", ".3d": "3D"}
+        for sel in ("/notes.txt", "/report", "/report.txt", "/plain.txt", "/sub"):
+            out, _l = _serve(sel.encode() + b"\t!\r\n", cfg)
+            blocks = {}
+            cur = None
+            for line in out.decode("utf-8", "replace").split("\r\n"):
+                if line.startswith("+") and ":" in line and not line.startswith("+-"):
+                    cur = line[1:line.index(":")]
+                    blocks[cur] = []
+                elif cur is not None and line.startswith(" "):
+                    blocks[cur].append(line[1:])
+            for ext, name in exts.items():
+                side = os.path.join(top, (sel[1:] + "/" if sel == "/sub" else sel[1:]) + ext)
+                if os.path.exists(side):
+                    want = [x.rstrip() for x in open(side).read().split("\n")]
+                    if want and want[-1] == "":
+                        want = want[:-1] if open(side).read().endswith("\n") else want
+                    if blocks.get(name) != want:
+                        return {"confirmed": True, "scenario": "Gopher+ block +%s of %s vs. the lines of its sidecar file" % (name, sel), "block": blocks.get(name), "file lines": want}
+                elif name in blocks:
+                    return {"confirmed": True, "scenario": "%s has no %s sidecar of its own but its item information carries a +%s block" % (sel, ext, name), "block": blocks[name]}
+        return {"confirmed": None, "note": "sidecar blocks agree with their files"}
+    finally:
+        shutil.rmtree(top, ignore_errors=True)
+        hb.rootpath = None; hm.rootpath = None; hm.handlers = None
+        gopherentry.eaexts = None
+
+
+REALISERS.append(("pygopherd/gopherentry.py::GopherEntry.handleeaext", r_sidecars))
+
+
+# ------------------------------------------------------------------- hostile mail subjects (C13 stand-in)
+def r_mail(d):
+    """A mailbox whose subjects are folded, carry TABs, markup, and RFC 2047 encoded words hiding CR LF '+ADMIN:':
+    the Gopher+ listing must have exactly one +INFO line per message and no block header a subject smuggled in;
+    the plain listing exactly one line per message; the HTML listing no element from a subject."""
+    import shutil, tempfile
+    import pygopherd.handlers.base as hb
+    import pygopherd.handlers.HandlerMultiplexer as hm
+    top = tempfile.mkdtemp(prefix="pyvc-mail-", dir="/var/tmp")
+    try:
+        cfg = _config({})
+        cfg.set("pygopherd", "root", top)
+        hb.rootpath = None; hm.rootpath = None; hm.handlers = None
+        subjects = ["plain subject", "folded\n\tsubject line", "tab\tinside", "<script>alert(1)</script> & \"q\"",
+                    "=?utf-8?Q?hidden=0D=0A+ADMIN:_x=0D=0A_Admin:_evil?=", "=?utf-8?B?YQ0KK0FCU1RSQUNUOg0KIGV2aWw=?=", ""]
+        with open(os.path.join(top, "box.mbox"), "w", newline="") as fh:
+            for i, s in enumerate(subjects):
+                fh.write("From alice@example.org Mon Jan  1 00:00:0%d 2024\nSubject: %s\n\nbody %d\n\n" % (i, s, i))
+        out, _l = _serve(b"/box.mbox\t$\r\n", cfg)
+        lines = out.decode("utf-8", "replace").split("\r\n")
+        infos = [l for l in lines if l.startswith("+INFO:")]
+        heads = [l for l in lines if l.startswith("+") and not l.startswith("+INFO:") and not l.startswith("+-")]
+        if len(infos) != len(subjects):
+            return {"confirmed": True, "scenario": "Gopher+ listing of a mailbox with %d messages has %d +INFO lines" % (len(subjects), len(infos)), "listing": out[:600].decode("utf-8", "replace")}
+        for l in infos:
+            if l.count("\t") < 3:
+                return {"confirmed": True, "scenario": "a mail subject broke an +INFO line", "line": l}
+        allowed = {"+ADMIN:", "+VIEWS:"}
+        if any(h.split(":")[0] + ":" not in allowed for h in heads) or len([h for h in heads if h.startswith("+ADMIN:")]) != len(subjects):
+            return {"confirmed": True, "scenario": "a mail subject passed for a Gopher+ block header", "block headers": heads[:20]}
+        out, _l = _serve(b"/box.mbox\r\n", cfg)
+        n = [l for l in out.split(b"\r\n") if l and l != b"."]
+        if len(n) != len(subjects):
+            return {"confirmed": True, "scenario": "plain listing of a mailbox with %d messages has %d lines" % (len(subjects), len(n))}
+        out, _l = _serve(b"GET /box.mbox HTTP/1.0\r\n\r\n", cfg)
+        if b"<script" in out.lower():
+            return {"confirmed": True, "scenario": "a mail subject became markup in the HTML listing"}
+        return {"confirmed": None, "note": "mail subjects stay inside their lines"}
+    finally:
+        shutil.rmtree(top, ignore_errors=True)
+        hb.rootpath = None; hm.rootpath = None; hm.handlers = None
+
+
+REALISERS.append(("pygopherd/handlers/mbox.py::MessageHandler.getentry", r_mail))
